@@ -12,6 +12,7 @@ VERUS_UNITS = {
     'complex-parser': dict(unit='complex-parser', rlimit=30),
     'complex-ast': dict(unit='complex-ast', rlimit=30),
     'decimal-ast': dict(unit='decimal-ast', rlimit=30, multiple_errors=40),
+    'f64-ast': dict(unit='f64-ast', rlimit=30),
     'i64-tok': dict(unit='i64-tok', rlimit=30), 'f64-tok': dict(unit='f64-tok', rlimit=30), 'number-tok': dict(unit='number-tok', rlimit=30),
     'decimal-tok': dict(unit='decimal-tok', rlimit=30), 'complex-tok': dict(unit='complex-tok', rlimit=30),
     'i64-glue': dict(unit='i64-glue'), 'f64-glue': dict(unit='f64-glue'), 'number-glue': dict(unit='number-glue'), 'decimal-glue': dict(unit='decimal-glue'), 'complex-glue': dict(unit='complex-glue'),
@@ -67,7 +68,7 @@ AST_ASSUME = [
     'A-64bit: usize is 64 bits wide',
     'T1 (error type), T2 (derived Clone of Node is structural), T5, T12, T13, T14 extraction rewrites (DESIGN 4.2)',
 ]
-ALL_V = ['i64-ast', 'decimal-ast', 'complex-ast'] + PARSERS + TOKS + GLUES
+ALL_V = ['i64-ast', 'decimal-ast', 'complex-ast', 'f64-ast'] + PARSERS + TOKS + GLUES
 
 PLAN = {
     'C01': dict(verus=ALL_V, kani=['i64-ast', 'f64-ast', 'number-ast', 'number-l4'], level='proof', assumptions=AST_ASSUME + PARSER_ASSUME + ['A-stack, A-alloc: stack exhaustion and allocation failure are not modelled'],
@@ -80,12 +81,12 @@ PLAN = {
                            'eval of decimal / complex']),
     'C11': dict(verus=ALL_V, kani=['f64-ast', 'number-ast'], level='proof', assumptions=AST_ASSUME + PARSER_ASSUME,
                 unclaimed=['aggregates of eval_f64 / eval_number / eval_decimal (L3)']),
-    'C13': dict(verus=PARSERS + GLUES, kani=['f64-ast', 'number-ast'], level='proof', assumptions=PARSER_ASSUME + GLUE_ASSUME,
+    'C13': dict(verus=PARSERS + GLUES + ['f64-ast'], kani=['f64-ast', 'number-ast'], level='proof', assumptions=PARSER_ASSUME + GLUE_ASSUME,
                 unclaimed=['alias spellings as text (tokenizer keyword arms map names to tokens: verified for panic-freedom and progress only); what is proved for aliases is that the alias nodes '
                            '(Arsinh/Arcosh/Artanh ..) apply the same primitive']),
     'C14': dict(verus=ALL_V, kani=['f64-ast', 'number-ast'], level='proof', assumptions=AST_ASSUME + PARSER_ASSUME,
                 unclaimed=[]),
-    'C05': dict(verus=['f64-parser', 'f64-glue'], kani=['f64-ast'], level='proof',
+    'C05': dict(verus=['f64-ast', 'f64-parser', 'f64-glue'], kani=['f64-ast'], level='proof',
                 assumptions=KANI_ASSUME + ['constants pi and e: the parser inserts std::f64::consts::PI / E (T8: their bit patterns are not re-proved)'],
                 unclaimed=['value of / and % on the full operand domain (bounded stand-ins only; full-domain division is tried in the thorough tier)',
                            'numerical behaviour of the platform pow / sqrt (A-libm)']),
@@ -103,7 +104,7 @@ PLAN = {
     'C09': dict(verus=['number-tok', 'number-glue'], kani=['number-ast', 'number-l4'], level='proof', assumptions=KANI_ASSUME + TOK_ASSUME,
                 unclaimed=['value of Integer ^ Integer (Kani 0.68 mis-models this arm: its counterexamples do not replay natively)',
                            'value of the Float quotient / remainder beyond the bounded domain', 'value of ^ with a Float operand (open obligations K:number-ast/step_pow_ff, _fi, _if: CBMC does not finish them)']),
-    'C15': dict(verus=['i64-ast'] + PARSERS, kani=['i64-ast', 'number-ast', 'f64-ast'], tables_agree=True, level='proof',
+    'C15': dict(verus=['i64-ast', 'f64-ast'] + PARSERS, kani=['i64-ast', 'number-ast', 'f64-ast'], tables_agree=True, level='proof',
                 assumptions=AST_ASSUME + KANI_ASSUME + PARSER_ASSUME + [
                     'agreement is obtained as a corollary, not as one relational theorem: (1) eval_i64 returns Ok(v) only for the exact integer v (Verus, all trees) and eval_number returns Integer(exact) on Integer operands whenever it fits (Kani, per constructor), '
                     '(2) every Float / mixed arm of eval_number has the numeric value of the IEEE operation that the same arm of eval_f64 applies (Kani, per constructor, bit-exact), '
